@@ -1,4 +1,5 @@
 import SlogModel.Model.Xform
+import SlogModel.Lemmas.Utf8
 import SlogModel.Gen.Facts
 
 /-!
@@ -217,6 +218,15 @@ theorem C15_truncate_ascii (v : Bytes) (maxLen : Nat) (suffix : Bytes) (h : ∀ 
       rw [List.take_take]; congr 1; omega
   simp [truncateVal, hl, hc]
 
+/-- **C15 (truncate cuts at a valid UTF-8 boundary).** A valid UTF-8 value longer than the limit
+becomes a valid prefix of itself, at most three bytes (one cut rune) short of `maxLen`, then the suffix. -/
+theorem C15_truncate_utf8 (v : Bytes) (maxLen : Nat) (suffix : Bytes) (hv : Utf8.valid v = true)
+    (hl : v.length > maxLen + suffix.length) :
+    ∃ k, truncateVal v maxLen suffix = v.take k ++ suffix ∧ Utf8.valid (v.take k) = true ∧
+      k ≤ maxLen ∧ maxLen ≤ k + 3 := by
+  obtain ⟨k, a, b, c, d⟩ := Utf8.clean_take_valid v hv maxLen
+  exact ⟨k, by simp [truncateVal, hl, a], b, c, d (by omega)⟩
+
 theorem C15_mapvalue_spec (st : XState) (r : Rec) (key : Nat) (mapping : List (Bytes × Bytes)) (dflt : Bytes) :
     runStep st r (.mapValue key mapping dflt) =
       .ok (.pass, (if r.get key = [] then r else
@@ -398,6 +408,195 @@ theorem C15_extract_head_decompose (e : Extractor) (text label rest : Bytes)
         omega
       · right; rw [hS]; simp; omega)
 
+/-! ### tail extraction, first / last boundary -/
+
+theorem hasSuffix_iff (s p : Bytes) : hasSuffix s p = true ↔ ∃ t, s = t ++ p := by
+  unfold hasSuffix
+  constructor
+  · intro h
+    simp at h
+    refine ⟨s.take (s.length - p.length), ?_⟩
+    have := List.take_append_drop (s.length - p.length) s
+    rw [h.2] at this
+    exact this.symm
+  · rintro ⟨t, rfl⟩; simp
+
+theorem stripRight_some (e : Extractor) (text s : Bytes) (h : stripRight e text = some s) : text = s ++ e.right := by
+  unfold stripRight at h
+  split at h
+  · split at h
+    · rename_i hp
+      obtain ⟨t, ht⟩ := (hasSuffix_iff _ _).mp hp
+      simp at h; subst h; rw [ht]; simp
+    · cases h
+  · rename_i hl
+    simp at hl h
+    subst h; simp [hl]
+
+theorem findRev (p : Nat → Bool) (n i : Nat) (h : (List.range n).reverse.find? p = some i) :
+    i < n ∧ p i = true ∧ ∀ j, i < j → j < n → p j = false := by
+  induction n with
+  | zero => simp at h
+  | succ n ih =>
+    rw [List.range_succ, List.reverse_append] at h
+    simp only [List.reverse_cons, List.reverse_nil, List.nil_append, List.singleton_append, List.find?_cons] at h
+    cases hp : p n with
+    | true =>
+      rw [hp] at h; simp at h; subst h
+      exact ⟨by omega, hp, fun j h1 h2 => by omega⟩
+    | false =>
+      rw [hp] at h; simp only [] at h
+      obtain ⟨a, b, c⟩ := ih h
+      refine ⟨by omega, b, fun j h1 h2 => ?_⟩
+      by_cases hj : j = n
+      · subst hj; exact hp
+      · exact c j h1 (by omega)
+
+theorem decomp_of_hasPrefix (s sub : Bytes) (i : Nat) (hp : hasPrefix (s.drop i) sub = true) (hi : i ≤ s.length) :
+    s = s.take i ++ sub ++ s.drop (i + sub.length) ∧ i + sub.length ≤ s.length := by
+  obtain ⟨t, ht⟩ := (hasPrefix_iff _ _).mp hp
+  have hlen : i + sub.length ≤ s.length := by
+    have := congrArg List.length ht
+    simp at this; omega
+  refine ⟨?_, hlen⟩
+  have h1 := (List.take_append_drop i s).symm
+  conv => lhs; rw [h1, ht]
+  have : t = List.drop (i + sub.length) s := by
+    rw [← List.drop_drop, ht]; simp
+  rw [this]; simp [List.append_assoc]
+
+/-- `strings.LastIndex` finds an occurrence, and none starts later -/
+theorem lastIndexOf_some (s sub : Bytes) (i : Nat) (h : lastIndexOf s sub = some i) :
+    hasPrefix (s.drop i) sub = true ∧ i ≤ s.length ∧
+    ∀ j, i < j → j ≤ s.length → hasPrefix (s.drop j) sub = false := by
+  unfold lastIndexOf at h
+  obtain ⟨hm, hp, hlast⟩ := findRev _ _ _ h
+  exact ⟨hp, by omega, fun j h1 h2 => hlast j h1 (by omega)⟩
+
+/-- `strings.Index` finds the first occurrence -/
+theorem indexOf_first (s sub : Bytes) (i : Nat) (h : indexOf s sub = some i) :
+    ∀ j, j < i → hasPrefix (s.drop j) sub = false := by
+  induction s generalizing i with
+  | nil =>
+    simp only [indexOf] at h
+    split at h
+    · simp at h; subst h; intro j hj; omega
+    · cases h
+  | cons c r ih =>
+    simp only [indexOf] at h
+    split at h
+    · simp at h; subst h; intro j hj; omega
+    · rename_i hp
+      cases hr : indexOf r sub with
+      | none => rw [hr] at h; cases h
+      | some k =>
+        rw [hr] at h; simp at h; subst h
+        intro j hj
+        cases j with
+        | zero => simpa using hp
+        | succ j => simpa using ih k hr j (by omega)
+
+theorem tailSearch_some (e : Extractor) (s : Bytes) (i : Nat) (h : tailSearch e s = some i) :
+    s = s.take i ++ e.left ++ s.drop (i + e.left.length) ∧ i + e.left.length ≤ s.length ∧
+    (s.length ≤ i + e.maxRange) ∧
+    (∀ j, i < j → j ≤ s.length → hasPrefix (s.drop j) e.left = false) := by
+  unfold tailSearch at h
+  split at h
+  · rename_i hgt
+    cases hl : lastIndexOf (s.drop (s.length - e.maxRange)) e.left with
+    | none => rw [hl] at h; cases h
+    | some k =>
+      rw [hl] at h; simp at h; subst h
+      obtain ⟨hp, hb, hlast⟩ := lastIndexOf_some _ _ _ hl
+      simp only [List.length_drop, List.drop_drop] at hb hlast hp
+      have hp' : hasPrefix (s.drop (k + (s.length - e.maxRange))) e.left = true := by
+        rw [show k + (s.length - e.maxRange) = (s.length - e.maxRange) + k by omega]; exact hp
+      obtain ⟨a, b⟩ := decomp_of_hasPrefix s e.left _ hp' (by omega)
+      refine ⟨a, b, by omega, fun j h1 h2 => ?_⟩
+      have := hlast (j - (s.length - e.maxRange)) (by omega) (by omega)
+      rw [show s.length - e.maxRange + (j - (s.length - e.maxRange)) = j by omega] at this
+      exact this
+  · obtain ⟨a, b, c⟩ := lastIndexOf_some _ _ _ h
+    obtain ⟨d, f⟩ := decomp_of_hasPrefix s e.left i a b
+    exact ⟨d, f, by omega, c⟩
+
+/-- **C15 (extractTail decomposes the text).** When tail extraction with a left boundary succeeds,
+the text is `rest ++ left ++ tag ++ right`, the extracted label is the tag with surrounding blanks
+and control characters trimmed, the boundary was found within the search range, and it is the last
+occurrence of the boundary before the right end. -/
+theorem C15_extract_tail_decompose (e : Extractor) (text label rest : Bytes)
+    (hl : e.left ≠ []) (h : extractEnd e text = .ok (some (label, rest))) :
+    ∃ tag, text = rest ++ e.left ++ tag ++ e.right ∧ label = trimCtl tag ∧
+      e.left.length + tag.length ≤ e.maxRange ∧
+      (∀ j, rest.length < j → j + e.right.length ≤ text.length →
+        hasPrefix ((text.take (text.length - e.right.length)).drop j) e.left = false) := by
+  unfold extractEnd at h
+  simp only [bind, Except.bind, pure, Except.pure, hl, ne_eq, not_false_eq_true, if_true] at h
+  repeat' split at h
+  all_goals first | (cases h; done) | skip
+  all_goals (
+    simp only [Except.ok.injEq, Option.some.injEq, Prod.mk.injEq] at h
+    obtain ⟨h1, h2⟩ := h
+    have hS := stripRight_some _ _ _ ‹stripRight e text = some _›
+    obtain ⟨hA, hB, hC, hD⟩ := tailSearch_some _ _ _ ‹tailSearch e _ = some _›
+    refine ⟨_, ?_, h1.symm, ?_, ?_⟩
+    · rw [← h2]; conv => lhs; rw [hS, hA]
+    · simp only [List.length_drop]; omega
+    · intro j hj1 hj2
+      rw [← h2] at hj1
+      simp only [List.length_take] at hj1
+      subst hS
+      simp only [List.length_append, Nat.add_sub_cancel, List.take_left'] at hj2 ⊢
+      exact hD j (by omega) (by omega))
+
+theorem hasPrefix_take (s p : Bytes) (n : Nat) (h : hasPrefix s p = true) (hn : p.length ≤ n) :
+    hasPrefix (s.take n) p = true := by
+  obtain ⟨t, rfl⟩ := (hasPrefix_iff _ _).mp h
+  rw [hasPrefix_iff]
+  refine ⟨t.take (n - p.length), ?_⟩
+  rw [List.take_append]
+  simp [List.take_of_length_le hn]
+
+theorem headSearch_first (e : Extractor) (s : Bytes) (i : Nat) (h : headSearch e s = some i) :
+    ∀ j, j < i → hasPrefix (s.drop j) e.right = false := by
+  unfold headSearch at h
+  split at h
+  · intro j hj
+    have hb := indexOf_bound _ _ _ h
+    have hf := indexOf_first _ _ _ h j hj
+    simp only [List.length_take] at hb
+    cases hq : hasPrefix (s.drop j) e.right with
+    | false => rfl
+    | true =>
+      have := hasPrefix_take _ _ (e.maxRange - j) hq (by omega)
+      rw [← List.drop_take] at this
+      rw [this] at hf; cases hf
+  · exact indexOf_first _ _ _ h
+
+/-- **C15 (extractHead takes the first boundary).** No occurrence of the right boundary starts
+inside the tag before the one that ended it. -/
+theorem C15_extract_head_first (e : Extractor) (text label rest : Bytes)
+    (hr : e.right ≠ []) (h : extractStart e text = .ok (some (label, rest))) :
+    ∀ j, j + e.right.length + rest.length < (text.drop e.left.length).length →
+      hasPrefix ((text.drop e.left.length).drop j) e.right = false := by
+  unfold extractStart at h
+  simp only [bind, Except.bind, pure, Except.pure, hr, ne_eq, not_false_eq_true, if_true] at h
+  repeat' split at h
+  all_goals first | (cases h; done) | skip
+  all_goals (
+    simp only [Except.ok.injEq, Option.some.injEq, Prod.mk.injEq] at h
+    obtain ⟨h1, h2⟩ := h
+    have hS := stripLeft_some _ _ _ ‹stripLeft e text = some _›
+    have hH := headSearch_some _ _ _ ‹headSearch e _ = some _›
+    have hF := headSearch_first _ _ _ ‹headSearch e _ = some _›
+    intro j hj
+    subst hS
+    simp only [List.drop_left'] at hj ⊢
+    apply hF
+    rw [← h2] at hj
+    simp only [List.length_drop] at hj
+    omega)
+
 /-! ### extraction never panics for extractors accepted at load time -/
 
 /-- what `newStringExtractor` guarantees (repaired F-10): a bare `*` has the boundary on its far
@@ -536,6 +735,8 @@ theorem C15_fact_slice_default_end : Facts.tmpl_slice_default_end = ["math.MaxIn
 /-! ### non-vacuity -/
 
 example : (sampleRun 33 10) = (10, 3) := by decide
+example : ∃ e, newExtractor true (b!" \\[*\\]") 50 = some e ∧
+    extractEnd e (b!"rest [x] [ tag ]") = .ok (some (b!"tag", b!"rest [x]")) := ⟨_, rfl, by decide⟩
 example : ∃ e, newExtractor false (b!"\\[*\\] ") 50 = some e ∧
     extractStart e (b!"[ tag ] rest") = .ok (some (b!"tag", b!"rest")) := ⟨_, rfl, by decide⟩
 
